@@ -8,7 +8,7 @@ env = dict(os.environ, GOPROXY='off', GOSUMDB='off', GOTOOLCHAIN='local')
 env.pop('GOFLAGS', None)
 passed = set(); failed = set()
 for m in mods:
-    p = subprocess.run(['go', 'test', '-json', '-vet=off', '-count=1', '-timeout', '25m', './...'], cwd='/repo/' + m, env=env, capture_output=True, text=True)
+    p = subprocess.run(['go', 'test', '-json', '-vet=off', '-count=1', '-timeout', '25m', './...'], cwd=os.environ.get('REPO_ROOT','/repo') + '/' + m, env=env, capture_output=True, text=True)
     for l in p.stdout.splitlines():
         try: e = json.loads(l)
         except Exception: continue
